@@ -887,4 +887,149 @@ impl driver_context_t<u16> for LigatureCtx<'_> {
 #[allow(unused_imports, dead_code, missing_docs)]
 pub mod verif_hooks {
     use super::*;
+    use crate::hb::common::Direction;
+    use crate::hb::ot_shape_plan::hb_ot_shape_plan_t;
+    use crate::Feature;
+    use alloc::vec::Vec;
+
+    /// Named constants of this file (flag bits, limits), for the generated Lean tables.
+    pub fn constants() -> Vec<(&'static str, u64)> {
+        vec![
+            ("REARR_MARK_FIRST", RearrangementCtx::MARK_FIRST as u64),
+            ("REARR_DONT_ADVANCE", RearrangementCtx::DONT_ADVANCE as u64),
+            ("REARR_MARK_LAST", RearrangementCtx::MARK_LAST as u64),
+            ("REARR_VERB", RearrangementCtx::VERB as u64),
+            ("CTX_SET_MARK", ContextualCtx::SET_MARK as u64),
+            ("CTX_DONT_ADVANCE", ContextualCtx::DONT_ADVANCE as u64),
+            ("INS_SET_MARK", InsertionCtx::SET_MARK as u64),
+            ("INS_DONT_ADVANCE", InsertionCtx::DONT_ADVANCE as u64),
+            ("INS_CURRENT_INSERT_BEFORE", InsertionCtx::CURRENT_INSERT_BEFORE as u64),
+            ("INS_MARKED_INSERT_BEFORE", InsertionCtx::MARKED_INSERT_BEFORE as u64),
+            ("INS_CURRENT_INSERT_COUNT", InsertionCtx::CURRENT_INSERT_COUNT as u64),
+            ("INS_MARKED_INSERT_COUNT", InsertionCtx::MARKED_INSERT_COUNT as u64),
+            ("LIG_SET_COMPONENT", LigatureCtx::SET_COMPONENT as u64),
+            ("LIG_DONT_ADVANCE", LigatureCtx::DONT_ADVANCE as u64),
+            ("LIG_PERFORM_ACTION", LigatureCtx::PERFORM_ACTION as u64),
+            ("LIG_ACTION_LAST", LigatureCtx::LIG_ACTION_LAST as u64),
+            ("LIG_ACTION_STORE", LigatureCtx::LIG_ACTION_STORE as u64),
+            ("LIG_ACTION_OFFSET", LigatureCtx::LIG_ACTION_OFFSET as u64),
+            ("LIGATURE_MAX_MATCHES", LIGATURE_MAX_MATCHES as u64),
+            ("MAX_CONTEXT_LENGTH", MAX_CONTEXT_LENGTH as u64),
+            ("START_OF_TEXT", START_OF_TEXT as u64),
+            ("CLASS_END_OF_TEXT", apple_layout::class::END_OF_TEXT as u64),
+            ("CLASS_OUT_OF_BOUNDS", apple_layout::class::OUT_OF_BOUNDS as u64),
+            ("CLASS_DELETED_GLYPH", apple_layout::class::DELETED_GLYPH as u64),
+            ("MAX_OPS_FACTOR", hb_buffer_t::MAX_OPS_FACTOR as u64),
+            ("MAX_OPS_MIN", hb_buffer_t::MAX_OPS_MIN as u64),
+            ("MAX_LEN_FACTOR", hb_buffer_t::MAX_LEN_FACTOR as u64),
+            ("MAX_LEN_MIN", hb_buffer_t::MAX_LEN_MIN as u64),
+            ("FEATURE_TYPE_LETTER_CASE", HB_AAT_LAYOUT_FEATURE_TYPE_LETTER_CASE as u64),
+            ("FEATURE_SELECTOR_SMALL_CAPS", HB_AAT_LAYOUT_FEATURE_SELECTOR_SMALL_CAPS as u64),
+            ("FEATURE_TYPE_LOWER_CASE", HB_AAT_LAYOUT_FEATURE_TYPE_LOWER_CASE as u64),
+            (
+                "FEATURE_SELECTOR_LOWER_CASE_SMALL_CAPS",
+                HB_AAT_LAYOUT_FEATURE_SELECTOR_LOWER_CASE_SMALL_CAPS as u64,
+            ),
+            (
+                "FEATURE_TYPE_CHARACTER_ALTERNATIVES",
+                HB_AAT_LAYOUT_FEATURE_TYPE_CHARACTER_ALTERNATIVES as u64,
+            ),
+        ]
+    }
+
+    /// The OpenType tag -> AAT (type, selector on, selector off) table of aat_layout.rs.
+    pub fn feature_mapping_rows() -> Vec<(u32, u16, u16, u16)> {
+        feature_mappings
+            .iter()
+            .map(|m| {
+                (
+                    m.ot_feature_tag.0,
+                    m.aat_feature_type as u16,
+                    m.selector_to_enable as u16,
+                    m.selector_to_disable as u16,
+                )
+            })
+            .collect()
+    }
+
+    /// A bare buffer holding `glyphs` = (glyph id, cluster) with the budgets of `enter()`.
+    pub fn make_buffer(glyphs: &[(u32, u32)], level: u32, dir: Direction) -> hb_buffer_t {
+        let mut b = hb_buffer_t::new();
+        for (g, c) in glyphs {
+            let mut info = hb_glyph_info_t::default();
+            info.glyph_id = *g;
+            info.cluster = *c;
+            b.info.push(info);
+            b.pos.push(Default::default());
+        }
+        b.len = glyphs.len();
+        b.cluster_level = level;
+        b.direction = dir;
+        b.enter();
+        b
+    }
+
+    pub fn dump(b: &hb_buffer_t) -> Vec<(u32, u32)> {
+        b.info[..b.len]
+            .iter()
+            .map(|i| (i.glyph_id, i.cluster))
+            .collect()
+    }
+
+    /// One call of `RearrangementCtx::transition` with the marks preset to `start`/`end`
+    /// and the cursor at `idx`. Returns the records and the marks afterwards.
+    pub fn rearrange(
+        flags: u16,
+        start: usize,
+        end: usize,
+        idx: usize,
+        level: u32,
+        glyphs: &[(u32, u32)],
+    ) -> (Vec<(u32, u32)>, usize, usize) {
+        let mut b = make_buffer(glyphs, level, Direction::LeftToRight);
+        b.idx = idx;
+        let mut c = RearrangementCtx { start, end };
+        let entry = apple_layout::GenericStateEntry::<()> {
+            new_state: 0,
+            flags,
+            extra: (),
+        };
+        c.transition(&entry, &mut b);
+        (dump(&b), c.start, c.end)
+    }
+
+    pub struct SubstituteResult {
+        pub glyphs: Vec<(u32, u32)>,
+        pub max_ops: i32,
+        pub successful: bool,
+        pub chain_flags: Vec<Vec<(u32, u32, u32)>>,
+    }
+
+    /// `hb_aat_layout_substitute` (feature compilation + the morx chain loop) on a hand-made
+    /// buffer; `max_ops`/`max_len` override the budgets of `enter()` when given.
+    pub fn substitute(
+        face: &hb_font_t,
+        dir: Direction,
+        feats: &[Feature],
+        level: u32,
+        max_ops: Option<i32>,
+        max_len: Option<usize>,
+        glyphs: &[(u32, u32)],
+    ) -> SubstituteResult {
+        let mut b = make_buffer(glyphs, level, dir);
+        if let Some(m) = max_ops {
+            b.max_ops = m;
+        }
+        if let Some(m) = max_len {
+            b.max_len = m;
+        }
+        let plan = hb_ot_shape_plan_t::new(face, dir, None, None, feats);
+        hb_aat_layout_substitute(&plan, face, &mut b);
+        SubstituteResult {
+            glyphs: dump(&b),
+            max_ops: b.max_ops,
+            successful: b.successful,
+            chain_flags: super::super::aat_map::verif_hooks::compile(face, feats),
+        }
+    }
 }
